@@ -598,6 +598,67 @@ def r9_optional_fields_guarded_by_themselves(ctx):
         raise AnalysisError('no guarded optional field found in the visitors: the rule no longer matches the code')
 
 
+def r10_code_lists_fit_their_segment(ctx):
+    """a 999 that is written is accepted when fed back: IK5 and AK9 carry their syntax error codes in a fixed number of
+    elements (the 999 maps define IK501-IK506 and AK901-AK909), so however many codes a set or group collected, the
+    segment written has no more elements than its map definition - decided by constant propagation through
+    visit_st_post / visit_gs_post with seven codes collected, against the element counts read from the shipped 999 maps;
+    (which values are appended is not judged here: the fixed leading elements may be appended too)."""
+    from ..absint import traces, NotClosedTest
+    from . import datarules as D
+    limits = {}
+    for f in ('999.5010.xml', '999.5010X231.A1.xml'):
+        for n in D.all_nodes(ctx, [f]):
+            if n.kind == 'segment' and n.id in ('IK5', 'AK9'):
+                limits.setdefault(n.id, []).append(len([c for c in n.children if c.kind in ('element', 'composite')]))
+    if set(limits) != {'IK5', 'AK9'}:
+        raise AnalysisError('999 maps: IK5 / AK9 definitions not found (%s)' % sorted(limits))
+    codes = ('1', '2', '3', '4', '5', '6', '7')
+    for meth, sid, model in (('visit_st_post', 'IK5', A.Model('err_st', ack_code='R')),
+                             ('visit_gs_post', 'AK9', A.Model('err_gs', ack_code='R', st_count_orig=2, st_count_recv=2, count_failed_st=lambda: 1))):
+        fn = ctx.func('error_999', 'error_999_visitor.' + meth)
+        oracle = lambda *_a: codes
+        funcs = {'self.__get_st_errors': oracle, 'self._error_999_visitor__get_st_errors': oracle, 'self.__get_gs_errors': oracle,
+                 'self._error_999_visitor__get_gs_errors': oracle}
+        made = []
+
+        def seg_ctor(text, *a, made=made):
+            made.append(text)
+            return A.Model('seg%d' % len(made), text=text)
+        funcs['pyx12.segment.Segment'] = funcs['Segment'] = funcs['segment.Segment'] = seg_ctor
+
+        def key(c):
+            r, m = A.call_target(c)
+            return (m + '@recv') if m in ('set', 'append') else None
+        env0 = dict(A.module_constants(ctx.mod('error_999').tree))
+        env0[fn.args.args[1].arg] = model
+        try:
+            res = traces(ctx.cfg(fn), env0, key, funcs)
+        except (NotClosedTest, RuntimeError) as e:
+            raise AnalysisError('error_999_visitor.%s cannot be decided: %s' % (meth, e))
+        msg = ''
+        for tr, _e in res:
+            segs = {}
+            for k_, a_ in tr:
+                recv = a_[0]
+                text = getattr(recv, 'text', None)
+                if not isinstance(text, str):
+                    continue
+                st_ = segs.setdefault(id(recv), {'id': text.split('*')[0], 'n': len(text.split('*')) - 1, 'app': []})
+                if k_.startswith('set') and isinstance(a_[1], str) and a_[1][-2:].isdigit():
+                    st_['n'] = max(st_['n'], int(a_[1][-2:]))
+                elif k_.startswith('append'):
+                    st_['n'] += 1
+                    st_['app'].append(a_[1])
+            mine = [v for v in segs.values() if v['id'] == sid]
+            if len(mine) != 1:
+                raise AnalysisError('error_999_visitor.%s: the %s segment it builds was not recognised' % (meth, sid))
+            lim = min(limits[sid])
+            if mine[0]['n'] > lim:
+                msg = 'with %d codes collected the %s written has %d elements, the 999 map defines %d: fed back it is rejected (too many elements)' % (len(codes), sid, mine[0]['n'], lim)
+        yield Ob('error_999:error_999_visitor.%s writes no more %s elements than the 999 map defines' % (meth, sid), not msg, ctx.floc(fn), msg)
+
+
 RULES = [
     Rule('C06.R9', 'an optional tree field is written under a test of that same field', r9_optional_fields_guarded_by_themselves, floor=1),
     Rule('C06.R1', 'who may write to the acknowledgement stream', r1_who_writes, floor=2),
@@ -605,6 +666,7 @@ RULES = [
     Rule('C06.R3', 'input text reaches acknowledgement segments only through a delimiter sanitiser (taint)', r3_echo_taint, floor=15),
     Rule('C06.R4', 'no partial output: guarded dict lookups, guarded None dereferences in the visitors', r4_no_partial_output, floor=2),
     Rule('C06.R5', 'set control numbers: incremented once per group, one format', r5_st_control, floor=3),
+    Rule('C06.R10', '999: IK5 / AK9 never carry more elements than the 999 maps define, however many codes were collected (constant propagation + map data)', r10_code_lists_fit_their_segment, floor=2),
     Rule('C06.R6', '997 hand-kept counters: ST resets, SE = count+1, GE/IEA from loop counters', r6_997_counter, floor=6),
     Rule('C06.R7', 'every hook writes its envelope segments on every path to its normal exit', r7_envelope_writes_unconditional, floor=14),
     Rule('C06.R8', 'shared with C11.R2: trailers regenerated by X12Writer carry the counters the reader compares', r8_shared_writer_counts, floor=10),
